@@ -235,6 +235,9 @@ class World:
             self.cluster.cmd_count = {}
             self.cluster.cmd_log = []
             self.cluster.faults = [Fault(*f) for f in cmd_faults]
+        if self.local is not None:
+            self.local.n_readline = 0
+            self.local.reply_faults = {k: kind for exe, k, kind in cmd_faults if exe == "sock"}
         self.in_invocation = True
         try:
             res = invoke(pre + list(argv), cwd, input=stdin)
